@@ -76,6 +76,7 @@ class Monitor:
         self.created = []
         self.removed = {}         # obj -> times after_remove ran
         self.unreleased_at_acquire = {}
+        self.release_started = {}
         self.in_get = set()       # threads between get() entry and return
         self.got_lock = set()     # ... that already held the pool lock once (so may already own an object)
         self.inv_evals = 0
@@ -175,11 +176,17 @@ class Monitor:
 POOL_OPS = ["get_release", "get_destroy", "gar_ok", "gar_raise_destroy", "gar_raise_release", "clear"]
 
 
-def make_pool_program(pool, mon, ops, log):
+def make_pool_program(pool, mon, ops, log, clock=None):
     def prog():
         for op in ops:
             try:
-                if op == "get_release":
+                if op == "slow_use":
+                    # a call that takes 10 virtual seconds (used by C09's race section; never part of C08's own programs)
+                    o = pool.get()
+                    clock.advance(10)
+                    mon.release_started[o] = clock.now()
+                    pool.release(o)
+                elif op == "get_release":
                     o = pool.get()
                     pool.release(o)
                 elif op == "get_destroy":
@@ -228,18 +235,28 @@ def run_pool_case(case, forced, mode):
         created.append(o)
         return o
 
+    early = []
+
     def after_remove(o):
         removed[o] = removed.get(o, 0) + 1
+        me = sch.me()
+        # called with the pool lock held = the idle-expiry path of get(): legitimate only if the object has been idle
+        # (since its release began) for longer than idle_timeout
+        if idle and any(l.owner == me for l in sch.locks):
+            started = mon.release_started.get(o)
+            if started is not None and clock.now() - started <= idle:
+                early.append(("healthy-object-expired-early",
+                              "%r was retired by get() %.0fs after its release began (idle_timeout %r)" % (o, clock.now() - started, idle)))
 
     try:
         pool = poolmod.ObjectPool(creator, after_remove=after_remove, max_size=max_size, idle_timeout=idle,
                                   lock_generator=lambda: S.SchedLock(sch, "pool"))
         mon = Monitor(sch, pool, max_size)
         log = []
-        ok = sch.run([make_pool_program(pool, mon, ops, log) for ops in programs])
+        ok = sch.run([make_pool_program(pool, mon, ops, log, clock) for ops in programs])
     finally:
         poolmod.time = saved
-    viol = list(mon.viol)
+    viol = list(mon.viol) + early
     if sch.deadlock:
         viol.append(("deadlock", sch.deadlock))
     for idx, err in sch.errors:
